@@ -187,6 +187,24 @@ impl AclHandler {
     }
 }
 
+/// Verification hook (feature `verif`): the private `AclHandler::set_acl(fabric, value)` - the part
+/// of the ACL attribute write that changes the fabric's entries (validation of the whole list
+/// before a replace, add / update / remove of one entry) - without the exchange, events and
+/// persistence around it.
+#[cfg(feature = "verif")]
+impl AclHandler {
+    pub fn verif_set_acl(
+        &self,
+        fabric: &mut Fabric,
+        value: ArrayAttributeWrite<
+            TLVArray<'_, AccessControlEntryStruct<'_>>,
+            AccessControlEntryStruct<'_>,
+        >,
+    ) -> Result<(), Error> {
+        self.set_acl(fabric, value)
+    }
+}
+
 impl ClusterHandler for AclHandler {
     const CLUSTER: Cluster<'static> = FULL_CLUSTER.with_attrs(with!(required)).with_cmds(with!());
 
